@@ -1,2 +1,284 @@
-From Verif Require Import Model.Chain.
-Example C02_placeholder : 1 = 1. Proof. reflexivity. Qed.
+(* Properties/C02.v — references and built-ins denote the reference semantics: the text-level laws.
+   Statements only, closed by [exact]; proofs in Proofs/InterpProofs.v and Proofs/GoTextProofs.v.
+   Model/Interp.v is the byte-level port of ast/interpolation.go and ast/property.go (parser and printer);
+   Model/GoText.v the JSON printer / reader and strconv.Quote; Model/Envelope.v base64. *)
+From Verif Require Import Base.Bytes Model.Chain Model.GoText Model.Envelope Model.Eval Model.Interp.
+From Verif Require Import Proofs.InterpProofs Proofs.GoTextProofs.
+From Verif Require Corr.C02.
+
+(* ====================================================================================================
+   1. `$$` is a literal `$`; text without `$$` and `${` passes through
+   ==================================================================================================== *)
+(* [text_result s] is [] for the empty string and [(s, None)] otherwise *)
+Theorem C02_interp_dollar : forall s : string, parse_interp (escape_dollar s) = (text_result s, 0).
+Proof. exact interp_dollar. Qed.
+
+Theorem C02_interp_plain : forall s : string, no_marker s = true -> parse_interp s = (text_result s, 0).
+Proof. exact interp_plain. Qed.
+
+Example C02_ex_dollar : parse_interp "cost: $$5 and $${not.a.ref} 100$" = ([("cost: $5 and ${not.a.ref} 100$", None)], 0).
+Proof. vm_compute. reflexivity. Qed.
+Example C02_ex_dollar_hyp : escape_dollar "a$b${c}" = "a$$b$${c}" /\ no_marker "lone $ and trailing $" = true.
+Proof. split; vm_compute; reflexivity. Qed.
+
+(* ====================================================================================================
+   2. parse_path inverts print_path (PropertyAccess.String), exactly on the printable paths
+   ==================================================================================================== *)
+(* printable_path p: p is non-empty, starts with a name or a quoted key, and
+     every name is non-empty and has no '.', '[', '}' and no byte in 9-13, 32, 0x85, 0xA0 (unicode.IsSpace of the BYTE),
+     every quoted key is non-empty and does not end in a backslash (any other bytes, quotes and backslashes included),
+     every index is a 64-bit Go int (negative ones print and parse back too). *)
+Theorem C02_path_roundtrip : forall (p : path) (rest : string), printable_path p = true ->
+  parse_path (print_path p +++ String "}"%char rest) = (p, rest, 0).
+Proof. exact path_roundtrip. Qed.
+
+(* the class is exact: apart from the single empty name that `${}` denotes nothing else comes back unchanged and
+   without a diagnostic; indeed every diagnostic-free parse returns a printable path *)
+Theorem C02_path_roundtrip_exact : forall p : path,
+  (forall rest, parse_path (print_path p +++ String "}"%char rest) = (p, rest, 0))
+  <-> (printable_path p = true \/ p = [AName EmptyString]).
+Proof. exact path_roundtrip_exact. Qed.
+
+Theorem C02_parse_path_output_printable : forall (s : string) (p : path) (rest : string),
+  parse_path s = (p, rest, 0) -> printable_path p = true \/ p = [AName EmptyString].
+Proof. exact parse_path_output_printable. Qed.
+
+Theorem C02_parse_int_print : forall i : Z, idx_ok i = true -> parse_int (print_Z i) = Some i.
+Proof. exact parse_int_print. Qed.
+
+(* the model's fuel never runs out and does not matter *)
+Theorem C02_parse_path_total : forall s : string,
+  snd (parse_path_fuel (S (String.length s)) true s) = true
+  /\ (forall f, (String.length s < f)%nat -> fst (parse_path_fuel f true s) = parse_path s)
+  /\ (String.length (snd (fst (parse_path s))) <= String.length s)%nat.
+Proof. exact parse_path_total. Qed.
+
+(* a key with a dot, a quote, a non-ASCII character (U+00E9 as C3 A9), a backslash before a quote, a space, ']' and '}' *)
+Definition ex_key : string := hx "6b2e22c3a95c22205d7d".
+Definition ex_path : path :=
+  [AName "root"; AKey ex_key; AIdx 42; AName "x$y-z"; AIdx (-7); AKey "["; AIdx 9223372036854775807].
+
+Example C02_ex_path_printable : printable_path ex_path = true.
+Proof. vm_compute. reflexivity. Qed.
+Example C02_ex_path_printed :
+  print_path ex_path = "root[""" +++ hx "6b2e5c22c3a95c5c22205d7d" +++ """][42].x$y-z[-7][""[""][9223372036854775807]".
+Proof. vm_compute. reflexivity. Qed.
+Example C02_ex_path_parsed : parse_path (print_path ex_path +++ "} tail") = (ex_path, " tail", 0).
+Proof. vm_compute. reflexivity. Qed.
+
+(* outside the class (byte-exact witnesses, all confirmed on the Go parser):
+   a key ending in a backslash swallows the closing quote; *)
+Example C02_ex_key_backslash :
+  key_ok "a\" = false /\ parse_path (print_path [AKey "a\"] +++ "}") = ([AKey "a""]}"], "", 3).
+Proof. split; vm_compute; reflexivity. Qed.
+(* a name containing U+00E0 (C3 A0) is cut at the byte A0, which unicode.IsSpace(rune(byte)) takes for NBSP:
+   `${à}` is a syntax error (finding) *)
+Example C02_ex_name_nbsp_byte :
+  name_ok (hx "c3a0") = false /\ parse_interp (hx "247bc3a07d") = ([("", Some [AName (hx "c3")]); (hx "a07d", None)], 1).
+Proof. split; vm_compute; reflexivity. Qed.
+(* `${}` is accepted silently as a reference to the property named "" (finding: the check "property access
+   expressions cannot be empty" in InterpolateSyntax is dead code) *)
+Example C02_ex_empty_reference : parse_interp "${}" = ([("", Some [AName ""])], 0).
+Proof. vm_compute. reflexivity. Qed.
+(* indices: sign and leading zeros are accepted and normalised, 2^63 is out of range and becomes a string subscript *)
+Example C02_ex_index_forms :
+  parse_path "a[+5][007][-0]}" = ([AName "a"; AIdx 5; AIdx 7; AIdx 0], "", 0)
+  /\ parse_path "a[9223372036854775808]}" = ([AName "a"; AKey "9223372036854775808"], "", 1)
+  /\ idx_ok 9223372036854775808 = false /\ idx_ok (-9223372036854775808) = true.
+Proof. repeat split; vm_compute; reflexivity. Qed.
+
+(* ====================================================================================================
+   3. parse_interp inverts print_interp up to the normalisation the parser performs
+   ==================================================================================================== *)
+(* norm_parts merges adjacent texts (a text is glued to the reference that follows it) and drops an empty trailing
+   text; parts_normal: a part without reference occurs only last and then has a non-empty text;
+   parts_printable: every reference is a printable path *)
+Theorem C02_interp_roundtrip_norm : forall ps : list (string * option path), parts_printable ps = true ->
+  parse_interp (print_interp ps) = (norm_parts EmptyString ps, 0).
+Proof. exact interp_roundtrip_norm. Qed.
+
+Theorem C02_interp_roundtrip : forall ps : list (string * option path),
+  parts_printable ps = true -> parts_normal ps = true -> parse_interp (print_interp ps) = (ps, 0).
+Proof. exact interp_roundtrip. Qed.
+
+(* and the parser only ever returns normal forms *)
+Theorem C02_parse_interp_normal : forall s : string, parts_normal (fst (parse_interp s)) = true.
+Proof. exact parse_interp_normal. Qed.
+
+Theorem C02_parse_interp_total : forall s : string,
+  snd (parse_interp_fuel (S (String.length s)) s EmptyString) = true
+  /\ (forall f, (String.length s < f)%nat -> fst (parse_interp_fuel f s EmptyString) = parse_interp s).
+Proof. exact parse_interp_total. Qed.
+
+(* what ast.ParseExpr makes of a string node *)
+Theorem C02_string_expr_text : forall s : string, string_expr (escape_dollar s) = (EStr s, 0).
+Proof. exact string_expr_text. Qed.
+
+Theorem C02_string_expr_sym : forall p : path, printable_path p = true ->
+  string_expr ("${" +++ print_path p +++ "}") = (ESym p, 0).
+Proof. exact string_expr_sym. Qed.
+
+Definition ex_parts : list (string * option path) :=
+  [("pay $", Some ex_path); ("", Some [AKey "only key"]); (" and $${x} ", Some [AName "b"; AIdx 0]); ("the end$", None)].
+
+Example C02_ex_parts_hyp : parts_printable ex_parts = true /\ parts_normal ex_parts = true.
+Proof. split; vm_compute; reflexivity. Qed.
+Example C02_ex_parts_parsed : parse_interp (print_interp ex_parts) = (ex_parts, 0).
+Proof. vm_compute. reflexivity. Qed.
+Example C02_ex_parts_norm :
+  norm_parts "" [("a", None); ("$b", None); ("c", Some [AName "x"]); ("", None); ("d", None); ("", None)]
+  = [("a$bc", Some [AName "x"]); ("d", None)].
+Proof. vm_compute. reflexivity. Qed.
+
+(* ====================================================================================================
+   4. fn::fromJSON after fn::toJSON
+   ==================================================================================================== *)
+(* json_all_ascii: every string and key is 7-bit (the domain on which Model/GoText.v is faithful);
+   json_numbers_ok: every number text is a JSON number literal (valid_number);
+   json_sorted: every object has strictly increasing keys in byte order (what Value.ToJSON / export produce).
+   All three return false when the fuel does not cover the value, so they also say that [f] suffices. *)
+Theorem C02_json_roundtrip : forall (f : nat) (j : json),
+  json_all_ascii f j = true -> json_numbers_ok f j = true -> json_sorted f j = true ->
+  json_parse (json_print f j) = JPOk j.
+Proof. exact json_roundtrip. Qed.
+
+(* valid_number recognises exactly the grammar of read_number, written out as four consecutive pieces
+   (number_lit: sign, integer part, fraction, exponent), and such a text is read back completely *)
+Theorem C02_valid_number_iff : forall t : string, valid_number t = true <-> number_lit (bytes_of t).
+Proof. exact valid_number_iff. Qed.
+
+Theorem C02_read_number_lit : forall l rest : list N, number_lit l -> num_stop rest = true ->
+  read_number (l ++ rest) = Some (l, rest).
+Proof. exact read_number_lit. Qed.
+
+(* value level, one fuel: FromJSON(ToJSON v, sec) is v with every node known and flagged [sec], except that nulls carry
+   no flag (x_reflag); x_known: no unknown anywhere and the fuel suffices *)
+Theorem C02_json_to_x_of_x_to_json : forall (f : nat) (sec : bool) (v : xval), x_known f v = true ->
+  json_to_x f sec (x_to_json f v) = x_reflag f sec v.
+Proof. exact json_to_x_of_x_to_json. Qed.
+
+(* text and value level together, with exactly the fuels the evaluator model passes (EToJSON, then EFromJSON) *)
+Theorem C02_fromjson_tojson : forall (sec : bool) (v : xval),
+  x_has_unknown v = false ->
+  let j := x_to_json (S (x_depth v)) v in
+  json_all_ascii (S (json_depth j)) j = true -> json_numbers_ok (S (json_depth j)) j = true ->
+  json_sorted (S (json_depth j)) j = true ->
+  json_parse (json_print (S (json_depth j)) j) = JPOk j
+  /\ json_to_x (S (json_depth j)) sec j = x_reflag (S (x_depth v)) sec v.
+Proof. exact fromjson_tojson_depth. Qed.
+
+Definition ex_json : json :=
+  JObj [("", JNull);
+        ("a<b>&c", JArr [JNum "-12.50e+3"; JNum "0"; JStr (hx "01091f225c2f7f") ; JArr []; JObj []]);
+        ("b", JObj [("x", JBool true); ("y", JStr "tab	quote"" <html> & \\")]);
+        ("c", JArr [JArr [JArr [JBool false]]])].
+
+Example C02_ex_json_hyp :
+  json_all_ascii 5 ex_json = true /\ json_numbers_ok 5 ex_json = true /\ json_sorted 5 ex_json = true
+  /\ json_depth ex_json = 5%nat.
+Proof. repeat split; vm_compute; reflexivity. Qed.
+Example C02_ex_json_printed :
+  json_print 5 (JArr [JStr (hx "013c"); JNum "1E-07"]) = "[""\u0001\u003c"",1E-07]".
+Proof. vm_compute. reflexivity. Qed.
+Example C02_ex_json_parsed : json_parse (json_print 5 ex_json) = JPOk ex_json.
+Proof. vm_compute. reflexivity. Qed.
+Example C02_ex_numbers :
+  map valid_number ["0"; "-0"; "10"; "1.5"; "-12.50e+3"; "1E-07"; "01"; "1."; ".5"; "-"; "1e"; "+1"; "1e+"; "0x1"; ""]
+  = [true; true; true; true; true; true; false; false; false; false; false; false; false; false; false].
+Proof. vm_compute. reflexivity. Qed.
+(* unsorted or duplicate keys are outside the theorem: the reader sorts, and keeps the last of two equal keys *)
+Example C02_ex_json_unsorted :
+  json_parse (json_print 3 (JObj [("b", JNum "1"); ("a", JNum "2"); ("b", JNum "3")])) = JPOk (JObj [("a", JNum "2"); ("b", JNum "3")]).
+Proof. vm_compute. reflexivity. Qed.
+
+Definition ex_xval : xval :=
+  XObj true false [("k", XArr false false [XScalar true false (SStr "s"); XScalar true false SNull; XScalar false false (SNum "7")]);
+                   ("n", XScalar false false (SBool true))].
+Example C02_ex_xval_hyp : x_has_unknown ex_xval = false /\ x_known 3 ex_xval = true.
+Proof. split; vm_compute; reflexivity. Qed.
+Example C02_ex_xval_roundtrip :
+  json_to_x 3 true (x_to_json 3 ex_xval)
+  = XObj true false [("k", XArr true false [XScalar true false (SStr "s"); XScalar false false SNull; XScalar true false (SNum "7")]);
+                     ("n", XScalar true false (SBool true))].
+Proof. vm_compute. reflexivity. Qed.
+
+(* ====================================================================================================
+   5. fn::fromBase64 after fn::toBase64, in the evaluator
+   ==================================================================================================== *)
+(* e evaluates (with fuel f, in the state the two builtins leave it) to a chain whose top layer is a known string and
+   which contains no unknown; the memo cell of the inner builtin is fresh.  Then the composite evaluates to that string
+   with the same secrecy, and reports, logs and calls nothing of its own. *)
+Theorem C02_b64_roundtrip_value :
+  forall (W : world) (f : nat) (E : ectx) (e : expr) (xbase : chain) (id : eid) (s s2 : st)
+         (v vrest : chain) (sec0 : bool) (sc : sch) (str : string),
+  let id0 := (fst id, snd id ++ [IIdx 0]) in
+  let id00 := (fst id0, snd id0 ++ [IIdx 0]) in
+  memo_get id0 (memo s) = None ->
+  eval_expr W f E e false [] id00 (snd (memo_set id0 None s)) = (v, s2) ->
+  v = LScalar sec0 false sc (SStr str) :: vrest ->
+  contains_unknowns v = false ->
+  let '(r, s') := eval_repr W (S (S (S (S (S f))))) E (EFromB64 (EToB64 e)) xbase id s in
+  r = [str_layer (contains_secrets v) false str]
+  /\ nerr s' = nerr s2 /\ log s' = log s2 /\ calls s' = calls s2 /\ oof s' = oof s2.
+Proof. exact b64_roundtrip_value. Qed.
+
+Definition ex_world : world :=
+  {| w_envs := []; w_provs := []; w_ctx := []; w_check := false; w_show := false; w_fault := None;
+     w_decrypt := fun _ _ => None |}.
+Definition ex_ectx : ectx :=
+  {| ec_name := "env"; ec_root := "env"; ec_values := []; ec_base := []; ec_imports := []; ec_context := [] |}.
+Example C02_ex_b64 :
+  fst (eval_repr ex_world 10 ex_ectx (EFromB64 (EToB64 (ESecretPlain (hx "00ff68c3a9")))) [] ("env", [IKey "k"]) st0)
+  = [str_layer true false (hx "00ff68c3a9")].
+Proof. vm_compute. reflexivity. Qed.
+
+(* ====================================================================================================
+   6. the string form (fn::toString, interpolation) against the JSON form
+   ==================================================================================================== *)
+(* for a value that entered as a single layer (provider output, fn::fromJSON result, context) the string form is the
+   specification string Corr.C02.jstring of its JSON rendering, no unknown is reported, and it is secret iff it was
+   unexported as secret or something in it is secret.  x_sorted: objects have strictly increasing keys. *)
+Theorem C02_to_string_unexport : forall (f : nat) (v : xval) (xs : bool),
+  x_known f v = true -> x_sorted f v = true ->
+  forall F1 F2, (f <= F1)%nat -> (f <= F2)%nat ->
+  to_string F1 (unexport f xs v) = (Corr.C02.jstring F2 (x_to_json f v), false, (xs || x_any (fun s _ => s) f v)%bool).
+Proof. exact to_string_unexport. Qed.
+
+Example C02_ex_to_string :
+  x_sorted 3 ex_xval = true
+  /\ to_string big_fuel (unexport 3 false ex_xval) = ("""k""=""\""s\"",\""\"",\""7\"""",""n""=""true""", false, true).
+Proof. split; vm_compute; reflexivity. Qed.
+
+(* the full claim, for every chain, is false of the model and of the implementation (known finding C02-tostring):
+   {a: "1"} merged over the base {b: "2"} exports a and b, its string form shows a only *)
+Theorem C02_tostring_inherited_refuted : ~ tostring_agrees_statement.
+Proof. exact tostring_inherited_refuted. Qed.
+
+Example C02_ex_inherited :
+  export big_fuel inherit_chain = Some inherit_value
+  /\ to_string big_fuel inherit_chain = ("""a""=""1""", false, false)
+  /\ Corr.C02.jstring (S (x_depth inherit_value)) (x_to_json (S (x_depth inherit_value)) inherit_value)
+     = """a""=""1"",""b""=""2""".
+Proof. exact (conj inherit_export (conj inherit_to_string inherit_jstring)). Qed.
+
+(* ====================================================================================================
+   7. strconv.Quote (the model's go_quote; faithful to Go on 7-bit input)
+   ==================================================================================================== *)
+Theorem C02_go_quote_first : forall s : string, exists r, go_quote s = String """"%char r.
+Proof. exact go_quote_first. Qed.
+
+Theorem C02_go_quote_last : forall s : string, exists r, go_quote s = r +++ """".
+Proof. exact go_quote_last. Qed.
+
+Theorem C02_go_quote_ascii : forall s : string, is_ascii7 s = true -> is_ascii7 (go_quote s) = true.
+Proof. exact go_quote_ascii. Qed.
+
+Theorem C02_go_unquote_quote : forall s : string, go_unquote (go_quote s) = Some s.
+Proof. exact go_unquote_quote. Qed.
+
+Theorem C02_go_quote_inj : forall a b : string, go_quote a = go_quote b -> a = b.
+Proof. exact go_quote_inj. Qed.
+
+Example C02_ex_go_quote :
+  go_quote (hx "61220a5c077f1b") = """a\""\n\\\a\x7f\x1b""" /\ is_ascii7 (hx "61220a5c077f1b") = true.
+Proof. split; vm_compute; reflexivity. Qed.
